@@ -70,7 +70,7 @@ TypeOk == /\ val.var \in {"Empty"} \cup TextVars \cup IntVars \cup FloatVars \cu
           /\ (val.var = "Empty") => val.items = <<>>
           /\ (val.var = "Str") => Len(val.items) = 1
           /\ \A i \in 1..Len(val.items) : ItemOkW(val.var, val.items[i])
-          /\ \A op \in Ops : OpOk(op)
+ASSUME OpsOk == \A op \in Ops : OpOk(op)
 
 NArgs(op) == CASE op.o = "xstr" -> Len(op.strs) [] op.o \in NumOps -> Len(op.nums) [] op.o \in FloatOps -> Len(op.fls) [] OTHER -> 0
 IsPrefix(a, b) == Len(a) <= Len(b) /\ \A i \in 1..Len(a) : a[i] = b[i]
